@@ -8,8 +8,8 @@ C08 judge:
 `J8 <impl answer …> ; <case line …>` runs the reference cache of `C08/Spec.lean` (eviction rule
 written from the property text, independent of `Gen`/`Model`) over the history and demands that
 the implementation's answer (hit/miss, value, trigger set, deadline) and its `stats` after the
-operation are identical, and that the key count respects the limit.  Only for histories without
-memory pressure.  Answer `1` or `0 <reason>`.
+operation are identical, and that the key count respects the limit.  Under memory pressure the
+reference is given the low-memory answers (`nem=` annotation) the harness computed from the allocator.  Answer `1` or `0 <reason>`.
 
 `binit <total>`, `bmalloc <size> at=<offset>|null`, `bfree <offset>` run the buddy allocator model
 (`Buddy.lean`); the address the real allocator chose is an oracle annotation (`at=`), the model
@@ -85,7 +85,7 @@ def judge8 (r : Ref) (w : List String) : Ref × String :=
           (match parseHex v', parseTrigs ts', d'.toInt? with
            | some v', some ts', some d' => v == v' && sameSet ts ts' && nodupB ts' && d == d'
            | _, _, _ => false)
-        | .done, ["ok"] => true
+        | .done, "ok" :: _ => true
         | .stats _ _, ["ok"] => true
         | _, _ => false
       (r', if !limitOk then "0 size-exceeds-limit"
